@@ -171,3 +171,19 @@ Example C19_staircase_instance :
   corridor_class stair4 (20, 0)%Q (40, 80)%Q = true /\
   shortest (20, 0)%Q (40, 80)%Q stair4 = Ok [(40, 80); (56, 56); (56, 40); (20, 0)]%Q.
 Proof. split; [exact stair4_class | exact stair4_shortest]. Qed.
+
+(* ---------- the funnel loop, any number of rectangles (Proofs/GeomContain4.v): every state it reaches keeps its window inside the
+   array, its apex inside the window and both chains convex; every step of the answer is a "good link" — the point the loop was at
+   when it recorded the predecessor was outside the corresponding chain. (What is still missing for containment with four or more
+   rectangles: that the two ends of a link see each other inside the corridor.) The containment of every SEGMENT is proved for all
+   corridors of up to three rectangles in coq/Heavy (C19Three.v, built by bin/heavy: about an hour). ---------- *)
+From Autog Require Import GeomContain4.
+Theorem C19_funnel_links : forall dl prev d apex pm pm', fstate d apex -> funnel dl prev d apex pm = Ok pm' ->
+  forall v u, In (v, u) pm' -> In (v, u) pm \/ good_link v u.
+Proof. exact funnel_links. Qed.
+Print Assumptions C19_funnel_links.
+
+Theorem C19_answer_steps_are_good_links : forall p1 p2 rects path, shortest p1 p2 rects = Ok path ->
+  forall a b, consecutive a b path -> (exists k, pt_eqb k a = true /\ good_link k b) \/ b = p1.
+Proof. exact shortest_links. Qed.
+Print Assumptions C19_answer_steps_are_good_links.
